@@ -52,7 +52,7 @@ func c20pName(a net.IP, upper []byte) string {
 //
 //verif:entry tier=quick,thorough
 //verif:expect reverse-of-a-synthesised-address-is-translated reverse-maps-back-to-the-same-ipv4 reply-is-a-cname-owned-by-the-question foreign-reverse-name-is-not-translated
-//verif:bound one configured prefix: the /96 form (quick) or any of the six RFC 6052 lengths (thorough), non-well-known; every IPv4 address; the reverse name spelled in lower-case nibbles; a second case with the address moved outside the prefix (first octet flipped)
+//verif:bound one configured prefix: the /96 form (quick) or any of the six RFC 6052 lengths (thorough), non-well-known, alone or listed after an overlapping 2001:db8::/32; every IPv4 address; the reverse name spelled in lower-case nibbles; a second case with the address moved outside the prefix (first octet flipped)
 //verif:outside upper-case nibble spellings (ServeDNS lower-cases the name before this point); the best-effort PTR chase behind the CNAME (no queryer configured); the well-known prefix's exclusion list (VerifC20_Dispatch)
 func VerifC20_PTRRoundTrip() {
 	c20pTargets = nil
@@ -62,12 +62,27 @@ func VerifC20_PTRRoundTrip() {
 	}
 	p := mustCIDR(c20pPrefixes[vChoice("prefix", n)])
 	cfg := &compiled{prefixes: []compiledPrefix{{net: p}}}
+	overlap := vBool("overlapping.shorter.prefix.first")
+	short := mustCIDR("2001:db8::/32")
+	if overlap {
+		// a shorter prefix that also contains the synthesised address but
+		// under which it is not a well-formed embedding: translation must
+		// go on to the prefix it was synthesised under
+		cfg.prefixes = []compiledPrefix{{net: short}, {net: p}}
+	}
 	d := &DNS64{cfg: cfg}
 	v4 := net.IP(vBytes("v4", 4))
 	addr := embedIPv4(p, v4)
 	foreign := vBool("outside.prefix")
 	if foreign {
 		addr[0] ^= 0x10
+	}
+	if overlap && !foreign {
+		// an address that happens to be a well-formed embedding under both
+		// prefixes is genuinely ambiguous (either IPv4 is a right answer):
+		// outside the claim
+		_, both := extractIPv4(short, addr)
+		vAssume(!both)
 	}
 	qname := c20pName(addr, nil)
 	req := new(dns.Msg)
